@@ -28,8 +28,10 @@ def main():
              "label": "2 proxies (optionally one session id) x 2 clients: " + U},
             {"harness": "c03", "cfg": {"P": "2", "C": "2", "pnat": "3", "loads": "2", "cnat": "3", "fp": "2"}, "budget_s": 30,
              "label": "2 proxies x 2 clients, the first optionally naming a bridge that is not listed: " + U},
+            {"harness": "c03", "cfg": {"P": "3", "C": "2", "pnat": "1", "loads": "3", "cnat": "2", "stagger": "1"}, "budget_s": 30,
+             "label": "3 proxies of one pool (all load triples over {0,8,16}) arriving together or 100 ms apart x 2 clients: " + U},
         ]
-        total = 180
+        total = 210
     else:
         passes = [
             {"harness": "c03", "cfg": {"P": "2", "C": "1"}, "budget_s": 100, "label": "2 proxies x 1 client, full alphabets: " + U},
@@ -39,8 +41,10 @@ def main():
             {"harness": "c03", "cfg": {"P": "3", "C": "1", "pnat": "4", "loads": "3", "cnat": "3", "dup": "1"}, "budget_s": 200, "label": "3 proxies x 1 client, optionally a repeated session id: " + U},
             {"harness": "c03", "cfg": {"P": "3", "C": "2", "pnat": "3", "loads": "2", "cnat": "3", "dup": "1"}, "budget_s": 250, "label": "3 proxies x 2 clients, optionally a repeated session id: " + U},
             {"harness": "c03", "cfg": {"P": "3", "C": "2", "pnat": "3", "loads": "2", "cnat": "3", "fp": "2"}, "budget_s": 250, "label": "3 proxies x 2 clients, the first optionally naming an unlisted bridge: " + U},
+            {"harness": "c03", "cfg": {"P": "3", "C": "2", "pnat": "2", "loads": "3", "cnat": "3", "stagger": "1"}, "budget_s": 250, "label": "3 proxies (2 NAT x 3 loads) arriving together or 100 ms apart x 2 clients: " + U},
+            {"harness": "c03", "cfg": {"P": "4", "C": "2", "pnat": "1", "loads": "3", "cnat": "1", "stagger": "1"}, "budget_s": 250, "label": "4 proxies of one pool (all load quadruples) arriving together or 100 ms apart x 2 clients: " + U},
         ]
-        total = 1550
+        total = 2050
     summary, tot, samples, exh = sched.run_passes(rep, binary, passes, total)
     sched.sched_coverage(rep, summary, tot, samples, exh)
     rep.assumptions += [
